@@ -47,7 +47,7 @@ Spec == Init /\ [][Next]_vars
 \* a Padding/Filler/Overlay-axis configuration from parameters <<kind index, amount, min, L, R, align, avail>>
 \* (relative amounts are percentages: amount a stands for 25 * a, up to 125)
 PadCfg(q) == [kind |-> PadKinds[q[1]], amt |-> IF q[1] = 3 THEN Min2(125, 25 * q[2]) ELSE q[2], own |-> q[2], nat |-> q[2], flex |-> q[1] = 2, min |-> q[3],
-              L |-> q[4], R |-> q[5], align |-> q[6], avail |-> q[7], clip |-> q[1] \in {4, 5}]
+              L |-> q[4], R |-> q[5], align |-> q[6], avail |-> q[7], clip |-> q[1] \in {4, 5}, trim |-> FALSE]
 
 ColOK == kind = "col" =>
   LET own == Own(opts)  w == RefColumns(opts, own, p[1], p[2], p[3], p[4])
@@ -83,6 +83,7 @@ ASSUME PadRefuted(WrongPadMirror)
 ASSUME PadRefuted(WrongPadNoMargins)
 ASSUME PadRefuted(WrongPadNoMin)
 ASSUME PadRefuted(WrongPadPackWhole)
+ASSUME PadRefuted(WrongPadNoClip)
 \* a shrinking packed child that does not fit beside the fixed margins gets exactly what they leave and the margins stay
 ASSUME \A c \in SmallPad : (c.flex /\ c.min = -1 /\ ~PadFits(c, c.nat) /\ PadBase(c) > 0) =>
          \A l \in 0..c.avail : \A r \in 0..c.avail : \A ch \in 0..c.avail :
